@@ -183,6 +183,17 @@ class Cls(Shape):
 
 
 def _guarded_on_assume(ctx, sh, acc, guard):
+    # the same (shape, term, guard) is registered once (lookups of recursive shapes would otherwise grow the fact chain without end)
+    done = ctx.__dict__.setdefault("shape_facts_registered", set())
+    try:
+        key = (id(sh), z3.simplify(acc).get_id(), z3.simplify(guard).get_id())
+    except Exception:   # noqa
+        key = None
+    if key is not None:
+        if key in done:
+            return
+        done.add(key)
+        ctx.__dict__.setdefault("keepalive", []).extend([acc, guard])
     if isinstance(sh, ListOf):
         xs = z3.simplify(sh.acc(acc))
         elem = sh.elem
